@@ -546,8 +546,8 @@ def node_variants(g, x):
     elif k == "a":
         if len(x[1]) != 32:      # [u8; 32]: serde's array visitor never reads the break (see Serde.v)
             out.append(("array-indefinite", RAW(b"\x9f" + b"".join(enc(y) for y in x[1]) + b"\xff")))
-        out += [("array-as-map", M([])), ("array-as-null", NULL), ("array-tagged", G(4, x)),
-                ("array-plus-junk", A(list(x[1]) + [r.choice([I(5), T("lora"), T("cable"), M([]), NULL, B(b"\x01")])]))]
+            out.append(("array-plus-junk", A(list(x[1]) + [r.choice([I(5), T("lora"), T("cable"), M([]), NULL, B(b"\x01")])])))
+        out += [("array-as-map", M([])), ("array-as-null", NULL), ("array-tagged", G(4, x))]
         if all(y[0] == "i" and 0 <= y[1] <= 255 for y in x[1]):
             out.append(("int-array-as-bytes", B(bytes(y[1] for y in x[1]))))
             if x[1]:
